@@ -16,7 +16,7 @@ EXTRACT = ["C11"]
 BINS = ["c11"]
 NEEDS_CICADA = True
 ALLOWED_AXIOMS = []
-PINNED = ["C11_full", "C11_refuted", "C11_splices", "C11_partial", "C11_unplannable", "C11_terminates", "C11_output_not_globbed",
+PINNED = ["C11_full", "C11_refuted", "C11_splices", "C11_splices_whole_word", "C11_index_buffer", "C11_partial", "C11_unplannable", "C11_terminates", "C11_output_not_globbed",
           "C11_refuted_whitespace"]
 TRUSTED = [
     "Coq 8.16.1 kernel (coqc; coqchk in thorough); vm_compute only in concrete witnesses / non-vacuity examples",
@@ -125,6 +125,16 @@ def run(ctx, res):
             c2, n2 = cmd(0)
             merged = "%s)$(%s" % (c1, c2)
             cases.append(([("", "echo"), ("", "$(%s)$(%s)" % (c1, c2))], [(merged, n1 + ")$(" + csub, o)], "merge", None))
+        # text of the word OUTSIDE the regex match must survive the splice: a literal dollar before / after the
+        # substitution (the head group cannot hold one), a newline before / after it (the tail group stops there)
+        for i in (0, 6, 18):
+            o = OUTS[i]
+            for head, tail, tags in [("US$", "", ["", '"']), ("$ ", "", ['"']), ("cost: $ ", "!", ["", '"']), ("a$b", "c$", ["", '"']),
+                                     ("$", "$", ["", '"']), ("", "$ x", ['"']), ("5$ + ", " = $", ['"']),
+                                     ("l1\n", "", ['"']), ("", "\nl2", ['"']), ("l1\n$ ", ".t\nl3\nl4", ['"']), ("p", "q\n", ['"', ""])]:
+                for tg in tags:
+                    c, cnt = cmd(i)
+                    cases.append(([("", "echo"), (tg, "%s$(%s)%s" % (head, c, tail)), ("", "z")], [(c, cnt, o)], "dollar", (head, tail, 1)))
         bad = "ls >"
         for toks in [[("", "echo"), ("`", bad), ("`", cmd(0)[0]), ("", "z")], [("", "echo"), ("", "a`%s`b`%s`c" % (cmd(0)[0], bad))],
                      [("", "echo"), ("", "a`%s`b" % bad)]]:
@@ -154,8 +164,20 @@ def run(ctx, res):
                     expw = {1: (info[0] + strip_nl(runs[0][2]) + info[1], runs[0][2])}
                 elif kind == "twotok":
                     expw = {1: (strip_nl(runs[0][2]), runs[0][2]), 3: ("x" + strip_nl(runs[1][2]) + "y", runs[1][2])}
-                elif kind == "merge":   # recorded class greedy_merge: one inner line; its output spliced as text
-                    expw = {1: (rust_trim(runs[0][2]), runs[0][2])}
+                elif kind == "merge" and "greedy_merge" in known:
+                    # repaired form: two substitutions, each output spliced as text
+                    if len(iw) == 2 and iw[1] == rust_trim(runs[0][2]) + rust_trim(OUTS[0]):
+                        res.extra.setdefault("findings_no_longer_reproducing", []).append("greedy_merge")
+                        continue
+                elif kind == "badbq" and "backquote_failure_stale" in known:
+                    # repaired form: a backquote command that does not plan yields the empty string, in its own place
+                    def bq_fixed(tg, x):
+                        if tg == "`":
+                            return "" if x == bad else rust_trim(OUTS[0])
+                        return re.sub(r"`([^`]*)`", lambda m_: "" if m_.group(1) == bad else rust_trim(OUTS[0]), x)
+                    if iw == [bq_fixed(tg, x) for tg, x in toks]:
+                        res.extra.setdefault("findings_no_longer_reproducing", []).append("backquote_failure_stale")
+                        continue
                 verdict = "correspondence"
                 if expw is not None and len(iw) == len(mw) == len(toks):
                     verdict = "accepted"
@@ -221,7 +243,13 @@ def run(ctx, res):
                     violate(kind="oracle", layer="L1", input=repr(toks), observed=b, failing_input=True,
                             note="two substitutions in one word are read as one command")
             elif kind == "badbq":
-                if "backquote_failure_stale" in known:
+                def bq_fixed2(tg, x):
+                    if tg == "`":
+                        return "" if x == bad else rust_trim(OUTS[0])
+                    return re.sub(r"`([^`]*)`", lambda m_: "" if m_.group(1) == bad else rust_trim(OUTS[0]), x)
+                if [C.dec(y) for x, y in re.findall(r'\("([^"]*)","([^"]*)"\)', b)] == [bq_fixed2(tg, x) for tg, x in toks]:
+                    pass        # this line already comes out as the repaired form would give it
+                elif "backquote_failure_stale" in known:
                     hit("backquote_failure_stale")
                 else:
                     violate(kind="oracle", layer="L1", input=repr(toks), observed=b, failing_input=True,
@@ -310,6 +338,10 @@ def run(ctx, res):
         # ------------------------------------------------------------ L2
         hp = os.path.join(ctx.helpers, "hp")
         l2 = []
+        for head, tail, pre in [("cost: $ ", "!", ""), ("$P", "", "P='US$'; "), ("a", "\nb", ""), ("l1\n$ ", ".t\nl3", "")]:
+            c, cnt = cmd(0)
+            hv = head.replace("$P", "US$")
+            l2.append(('%s%s @o "%s$(%s)%s" k' % (pre, hp, head, c, tail), [hv + strip_nl(OUTS[0]) + tail, "k"], cnt, OUTS[0], "dollar"))
         for i in range(len(gouts)):
             c, cnt = gcmd(i)
             l2.append(('%s @o $(%s) k' % (hp, c), [strip_nl(gouts[i]), "k"], cnt, gouts[i], "dollar"))
